@@ -219,6 +219,20 @@ func init() {
 				didtypes.WithAuthentications([]didtypes.VerificationRelationship{rel(vmid)}))
 			return &d
 		}
+		// the verdict on a method id depends on the DID it is used under, and on nothing the process validated before:
+		// the same id first under its own DID then under a foreign one, and another id in the opposite order
+		{
+			it2 := ids3[1]
+			mk2 := func(did, vmid string) *didtypes.DIDDocument {
+				vm := &didtypes.VerificationMethod{Id: vmid, Type: didtypes.ES256K_2019, Controller: did, PublicKeyBase58: it.keys[0].b58}
+				d := didtypes.NewDIDDocument(did, didtypes.WithVerificationMethods([]*didtypes.VerificationMethod{vm}),
+					didtypes.WithAuthentications([]didtypes.VerificationRelationship{rel(vmid)}))
+				return &d
+			}
+			for _, step := range [][2]string{{it2.did, it2.did + "#kA"}, {it.did, it2.did + "#kA"}, {it.did, it2.did + "#kB"}, {it2.did, it2.did + "#kB"}, {it2.did, it2.did + "#kA"}} {
+				e.didCreate(&didtypes.MsgCreateDIDRequest{Did: step[0], Document: mk2(step[0], step[1]), VerificationMethodId: step[1], Signature: sig, FromAddress: good})
+			}
+		}
 		for _, l := range []int{0, 1, 127, 128, 129, 300} {
 			e.didCreate(&didtypes.MsgCreateDIDRequest{Did: it.did, Document: mk(it.did+"#"+rep("k", l), it.keys[0].b58, didtypes.ES256K_2019), VerificationMethodId: "x", Signature: sig, FromAddress: good})
 		}
